@@ -5,6 +5,7 @@ cd "$(dirname "$0")"
 export CARGO_NET_OFFLINE=true
 mkdir -p work evidence
 python3 tools/rs2lean.py
+python3 tools/genreg.py
 ( cd lean && lake build TF tfm )
 cp -f /repo/Cargo.lock harness/Cargo.lock 2>/dev/null || true
 ( cd harness && cargo build --release --offline )
